@@ -21,7 +21,9 @@ func init() {
 }
 
 func xsyncobjWorld(r *R) {
-	switch r.Choose(6, "scenario") {
+	switch r.Choose(7, "scenario") {
+	case 6:
+		watchableEqualValues(r)
 	case 0, 1, 2:
 		watchableScenario(r)
 	case 3:
@@ -317,10 +319,16 @@ func futureScenario(r *R) {
 	}
 }
 
+type lazyBoom struct{}
+
 func lazyScenario(r *R) {
 	ncall := 1 + r.Choose(4, "callers")
 	runs := 0
 	slow := r.Choose(3, "slow-init")
+	if r.Choose(4, "lazy-panics") == 3 {
+		lazyPanicScenario(r, ncall, slow)
+		return
+	}
 	lazy := xsync.Lazy(func() int {
 		runs++
 		Spin(slow, "lazy-init")
@@ -360,6 +368,131 @@ func lazyScenario(r *R) {
 		if v != 7001 {
 			r.Violate("C18", "lazy/wrong-result", "caller %d got %d, the function returned 7001", i, v)
 			return
+		}
+	}
+}
+
+// lazyPanicScenario: the function panics. It still runs only once, and no caller is ever handed a
+// value the function did not produce (sync.OnceValue, which Lazy is documented to be, gives every
+// caller the panic).
+func lazyPanicScenario(r *R, ncall, slow int) {
+	r.Probe("lazy-function-panics")
+	runs := 0
+	lazy := xsync.Lazy(func() int {
+		runs++
+		Spin(slow, "lazy-init")
+		panic(lazyBoom{})
+	})
+	done := 0
+	for i := 0; i < ncall; i++ {
+		i := i
+		pace := r.Choose(4, "caller-pace")
+		sim.GoNamed(fmt.Sprintf("caller%d", i), func() {
+			Spin(pace, "caller-pace")
+			for round := 0; round < 2; round++ {
+				var got int
+				var pv any
+				panicked := false
+				func() {
+					defer func() {
+						if p := recover(); p != nil {
+							if p == sim.Killed {
+								panic(p)
+							}
+							panicked, pv = true, p
+						}
+					}()
+					got = lazy()
+				}()
+				r.Hist("lazy-panic", i, round, panicked)
+				if !panicked {
+					r.Violate("C18", "lazy/value-never-produced", "caller %d (call %d) was handed %d although the function never returned anything: it panicked", i, round, got)
+					return
+				}
+				if _, ok := pv.(lazyBoom); !ok {
+					r.Violate("C18", "lazy/wrong-panic", "caller %d got panic %v, the function panicked with lazyBoom", i, pv)
+					return
+				}
+			}
+			done++
+		})
+	}
+	sim.WaitStuck("lazy-panic-phase")
+	if r.Failed() {
+		return
+	}
+	if done != ncall {
+		r.Violate("C18", "lazy/stuck", "only %d of %d callers returned: %v", done, ncall, sim.TaskStates())
+		return
+	}
+	if runs != 1 {
+		r.Violate("C18", "lazy/ran-not-once", "the (panicking) function ran %d times", runs)
+	}
+}
+
+// watchableEqualValues: a Set counts as a later Set whatever value it carries - the same value again,
+// a distinct pointer to equal contents, or the zero value as the very first Set.
+func watchableEqualValues(r *R) {
+	r.Probe("watchable-equal-values")
+	closed := func(ch chan struct{}) bool {
+		select {
+		case <-ch:
+			return true
+		default:
+			return false
+		}
+	}
+	switch r.Choose(3, "equal-kind") {
+	case 0:
+		var w xsync.Watchable[int]
+		v0, ch0 := w.Value()
+		if v0 != 0 || closed(ch0) {
+			r.Violate("C18", "watchable/initial", "before any Set Value() = (%d, closed=%v)", v0, closed(ch0))
+			return
+		}
+		w.Set(0) // the first Set carries the zero value
+		if !closed(ch0) {
+			r.Violate("C18", "watchable/channel-not-closed/equal-value", "Value() was called before the first Set; Set(0) - the zero value - did not close its channel")
+			return
+		}
+		n := 1 + r.Choose(3, "repeats")
+		for i := 0; i < n; i++ {
+			v, ch := w.Value()
+			if v != 0 || closed(ch) {
+				r.Violate("C18", "watchable/value", "Value() = (%d, closed=%v) after Set(0)", v, closed(ch))
+				return
+			}
+			w.Set(0)
+			if !closed(ch) {
+				r.Violate("C18", "watchable/channel-not-closed/equal-value", "Set(0) after Set(0): the channel handed out in between was not closed")
+				return
+			}
+		}
+	case 1:
+		var w xsync.Watchable[string]
+		w.Set("a")
+		_, ch := w.Value()
+		w.Set("a")
+		if !closed(ch) {
+			r.Violate("C18", "watchable/channel-not-closed/equal-value", "Set(\"a\") twice: the channel handed out in between was not closed")
+			return
+		}
+		if v, _ := w.Value(); v != "a" {
+			r.Violate("C18", "watchable/value", "Value() = %q after Set(\"a\")", v)
+		}
+	default:
+		type box struct{ n int }
+		var w xsync.Watchable[*box]
+		p1, p2 := &box{5}, &box{5}
+		w.Set(p1)
+		_, ch := w.Value()
+		w.Set(p2) // a different pointer to equal contents
+		if !closed(ch) {
+			r.Violate("C18", "watchable/channel-not-closed/equal-value", "Set of a distinct pointer to equal contents did not close the channel handed out before it")
+			return
+		}
+		if v, _ := w.Value(); v != p2 {
+			r.Violate("C18", "watchable/value", "Value() does not return the pointer most recently Set")
 		}
 	}
 }
@@ -454,7 +587,7 @@ func mapDiff[K comparable, V any](r *R, kname, vname string, keys []K, vals []V)
 		if isNilIface(v) {
 			r.Probe("map-nil-interface-value")
 		}
-		switch r.Choose(10, "op") {
+		switch r.Choose(11, "op") {
 		case 0:
 			m.Store(key, v)
 			ref.Store(key, v)
@@ -478,6 +611,92 @@ func mapDiff[K comparable, V any](r *R, kname, vname string, keys []K, vals []V)
 			call("CompareAndSwap", key, func() (any, bool, bool) { b := m.CompareAndSwap(key, v, v2); return nil, b, false }, func() (any, bool) { return nil, ref.CompareAndSwap(key, v, v2) })
 		case 7:
 			call("CompareAndDelete", key, func() (any, bool, bool) { b := m.CompareAndDelete(key, v); return nil, b, false }, func() (any, bool) { return nil, ref.CompareAndDelete(key, v) })
+		case 9:
+			// Range whose callback modifies the map, in two ways whose outcome does not depend on
+			// the (randomised) iteration order: on its first call it deletes every other key, or
+			// overwrites every key.
+			kind := r.Choose(2, "range-mutation")
+			if kind == 1 {
+				// the overwriting value must be one no key holds at present, so that "stale" does
+				// not depend on which key happens to come first
+				fresh := false
+				for _, cand := range vals {
+					held := false
+					ref.Range(func(_, cur any) bool {
+						if cur == any(cand) {
+							held = true
+						}
+						return !held
+					})
+					if !held {
+						v2, fresh = cand, true
+						break
+					}
+				}
+				if !fresh {
+					kind = 0
+				}
+			}
+			run := func(rng func(func(k, v any) bool), del func(k any), put func(k any)) (calls int, stale int) {
+				first := true
+				var firstKey any
+				rng(func(k, v any) bool {
+					calls++
+					if first {
+						first, firstKey = false, k
+						for _, o := range keys {
+							if any(o) == firstKey {
+								continue
+							}
+							if kind == 0 {
+								del(any(o))
+							} else {
+								put(any(o))
+							}
+						}
+					} else if kind == 1 && v != any(v2) {
+						stale++
+					}
+					return true
+				})
+				return
+			}
+			panicked := false
+			var pval any
+			var xc, xs int
+			func() {
+				defer func() {
+					if p := recover(); p != nil {
+						panicked, pval = true, p
+					}
+				}()
+				xc, xs = run(func(f func(k, v any) bool) { m.Range(func(k K, v V) bool { return f(any(k), any(v)) }) },
+					func(k any) { kk, _ := k.(K); m.Delete(kk) },
+					func(k any) { kk, _ := k.(K); if _, ok := m.Load(kk); ok { m.Store(kk, v2) } })
+			}()
+			sc, ss := run(func(f func(k, v any) bool) { ref.Range(f) }, func(k any) { ref.Delete(k) },
+				func(k any) { if _, ok := ref.Load(k); ok { ref.Store(k, v2) } })
+			// which key came first depends on the map's iteration order, which the two maps need
+			// not share: bring both to the same contents again
+			for _, k := range keys {
+				if kind == 0 {
+					m.Delete(k)
+					ref.Delete(any(k))
+				} else if _, ok := ref.Load(any(k)); ok {
+					m.Store(k, v2)
+					ref.Store(any(k), v2)
+				}
+			}
+			r.Hist("Range-mutating", kind, panicked) // not the counts: under a faulty Range they depend on the map's randomised iteration order
+			r.Probe("map-range-callback-modifies")
+			if panicked {
+				r.Violate("C18", "map/panic/Range/mutating-callback", "xsync.Map[%s,%s].Range panicked (%v) with a callback that modifies the map", kname, vname, pval)
+				return
+			}
+			if xc != sc || xs != ss {
+				r.Violate("C18", "map/differs/Range/mutating-callback", "Range with a callback that on its first call %s: xsync.Map called it %d times (%d stale values), sync.Map %d times (%d stale values)", []string{"deletes every other key", "overwrites every key"}[kind], xc, xs, sc, ss)
+				return
+			}
 		default:
 			// Range: compare as sorted sets
 			var xs, ss []string
